@@ -3,7 +3,7 @@ LEVEL = "proof"
 LEAN_MODULES = ["CifModel.Props.C13", "CifModel.Props.C13Doc", "CifModel.Props.ReviewC13"]
 REQUIRED = ["CifModel.C13_text_pure", "CifModel.C13_no_triple", "CifModel.C13_refusal_codes", "CifModel.C13_never_silently_alters",
             "CifModel.C13_value_roundtrip", "CifModel.C13_run", "CifModel.C13_refusal_codes_doc", "CifModel.C13_pure",
-            "CifModel.C13_roundtrip", "CifModel.C13_roundtrip_sample"]
+            "CifModel.C13_refuses", "CifModel.C13_refuses_value", "CifModel.C13_refuses_char", "CifModel.C13_roundtrip", "CifModel.C13_output_units", "CifModel.C13_roundtrip_sample"]
 GEN = ["WriterConsts", "ErrCodes"]
 FAMILIES = ["decode", "writeval11", "write11"]
 TRUSTED_BASE = [
@@ -21,6 +21,10 @@ ASSUMPTIONS = [
     "the store's enumeration order is an input of the writer model",
 ]
 PARTIAL = [
+    "C13_refuses (whole documents, every walk order, no assumption on characters or value kinds beyond writability `containersOk`): "
+    "cif_write in CIF 1.1 mode succeeds IFF every code / written name / string consists of CIF 1.1 characters (containersCE) and no value "
+    "is a list, a table or a string that needs a text field and contains <LF>; (containersVE); on failure the code is CIF_DISALLOWED_CHAR "
+    "with containersCE false or CIF_DISALLOWED_VALUE with containersVE false (C13_refuses_value / C13_refuses_char: the code per kind)",
     "C13_pure and C13_refusal_codes_doc are proved for whole documents (every walk order) under containersV1 (loops hold packets, names "
     "printable, numbers non-empty CIF 1.1 text); the line bound is C02_line_bound (version 1) under containersL",
     "C13_roundtrip (whole documents, CIF 1.1 writer -> CIF 1.1 parse with line unfolding and prefix removal on, every callback policy) is "
